@@ -72,6 +72,16 @@ def run_load_cell(cell, path_or_text, fmt_real, fails):
     where = f"ml.{fn}(fmt={fmt!r}, src={cell.get('src')}, otype={otype_s}, name={name!r})"
     is_file = fn in ("load", "load_all")
     kw = dict(otype=arg_otype, name=name)
+    key = None
+    if cell.get("key") and fmt_real == "cdxml" and fn == "load":
+        # retrieval by label: the class-level codec is CDXMLFile(path)[label]
+        import warnings
+        with warnings.catch_warnings():
+            warnings.simplefilter("ignore")
+            labels_ = list(ml.CDXMLFile(path_or_text).keys())
+        key = {"first": labels_[0], "last": labels_[-1], "missing": "no such label"}[cell["key"]]
+        kw["key"] = key
+        where += f" key={key!r}"
     if is_file:
         p = path_or_text
         if cell["fmtarg"] == "suffix":
@@ -109,6 +119,22 @@ def run_load_cell(cell, path_or_text, fmt_real, fails):
                 fails.append(Fail(f"cdxml-from-string-not-rejected:{fn}", f"{where}: {raised!r}"))
             return "rejected"
         cdx = ml.CDXMLFile(path_or_text)
+        if fn == "load" and key is not None:
+            try:
+                exp = cls(cdx[key])
+            except KeyError:
+                if not isinstance(raised, KeyError):
+                    fails.append(Fail("load-by-unknown-key-not-KeyError", f"{where}: {raised!r} / returned {type(got).__name__}"))
+                return "rejected"
+            if raised is not None:
+                fails.append(Fail(f"raises:{fn}:{exc_sig(raised) or type(raised).__name__}", f"{where}: {raised!r}"))
+                return "codec"
+            if name is not None:
+                exp.name = got.name     # the name is judged separately, below
+            _same(exp, got, where, fails, coords=False)
+            if name is not None and got.name != name:
+                fails.append(Fail(f"name-override-ignored:{fn}:by-key", f"{where}: result is named {got.name!r}"))
+            return "codec"
         if fn == "load":
             exp = cls(cdx._parse_fragment(cdx.xfrags[0], name=name))
             if raised is not None:
@@ -283,6 +309,9 @@ def load_cells():
                     for ot in OTYPES:
                         for name in (None, "given_name"):
                             yield {"fn": fn, "fmt": fmt, "src": src, "fmtarg": fmtarg, "otype": ot, "name": name}
+                            if fn == "load" and fmt == "cdxml":
+                                for key in ("first", "last", "missing"):
+                                    yield {"fn": fn, "fmt": fmt, "src": src, "fmtarg": fmtarg, "otype": ot, "name": name, "key": key}
     for fn in ("loads", "loads_all"):
         for fmt in FMTS:
             for ot in OTYPES:
